@@ -775,7 +775,12 @@ class Machine:
         mq = re.match(r'<(.+?) as .+>::(.*)$', name)
         if mq:
             name = mq.group(1).split('::')[-1] + '::' + mq.group(2)
-        for cand in (name, strip_generics(name)):
+        cands_ = [name, strip_generics(name)]
+        mi_ = re.search(r'<impl (?:.* for )?([\w:]+?)(?:<.*>)?>::(.*)$', name)
+        if mi_:
+            # `<impl Trait<W> for path::Type>::method::promoted[0]`: bodies are indexed as Type::method::promoted[0]
+            cands_.append(mi_.group(1).split('::')[-1] + '::' + mi_.group(2))
+        for cand in cands_:
             for nn, b in self.const_index.items():
                 if nn == cand or cand.endswith('::' + nn) or nn.endswith('::' + cand):
                     return b
@@ -1046,12 +1051,20 @@ class Machine:
         if tyname is not None:
             b = self.find_impl(tyname, meth, trait)
             if b is not None:
-                return self.run(b, args)
+                self.subst.append({})       # the impl's own type parameters are not the caller's
+                try:
+                    return self.run(b, args)
+                finally:
+                    self.subst.pop()
             if any(k[0] == tyname and k[2] == trait for k, _ in self.impl_list):
                 # the impl exists but does not override the method: the trait's provided method
                 cands = [bb for n, bb in self.b.items() if bb.kind == 'fn' and (n == '%s::%s' % (trait, meth) or n.endswith('::%s::%s' % (trait, meth)))]
                 if len(cands) == 1:
-                    return self.run(cands[0], args)
+                    self.subst.append({})
+                    try:
+                        return self.run(cands[0], args)
+                    finally:
+                        self.subst.pop()
         return NotImplemented
 
     def call_closure(self, f, args):
